@@ -65,18 +65,28 @@ int ifdef_ignore(AsmContext *asm_context)
 
 int parse_ifdef_ignore(AsmContext *asm_context, int ignore_section)
 {
+  int n;
+
   if (ignore_section == 1)
   {
-    if (ifdef_ignore(asm_context) == 2)
+    n = ifdef_ignore(asm_context);
+
+    if (n == -1) { return -1; }
+
+    if (n == 2)
     {
-      asm_context->assemble();
+      if (asm_context->assemble() == -1) { return -1; }
     }
   }
     else
   {
-    if (asm_context->assemble() == 2)
+    n = asm_context->assemble();
+
+    if (n == -1) { return -1; }
+
+    if (n == 2)
     {
-      ifdef_ignore(asm_context);
+      if (ifdef_ignore(asm_context) == -1) { return -1; }
     }
   }
 
@@ -112,11 +122,11 @@ int parse_ifdef(AsmContext *asm_context, int ifndef)
     if (ifndef == 0) { ignore_section = 1; }
   }
 
-  parse_ifdef_ignore(asm_context, ignore_section);
+  int n = parse_ifdef_ignore(asm_context, ignore_section);
 
   asm_context->ifdef_count--;
 
-  return 0;
+  return n;
 }
 
 int parse_if(AsmContext *asm_context)
@@ -131,17 +141,19 @@ int parse_if(AsmContext *asm_context)
 
   if (num == -1) { return -1; }
 
+  int n;
+
   if (num != 0)
   {
-    parse_ifdef_ignore(asm_context, 0);
+    n = parse_ifdef_ignore(asm_context, 0);
   }
     else
   {
-    parse_ifdef_ignore(asm_context, 1);
+    n = parse_ifdef_ignore(asm_context, 1);
   }
 
   asm_context->ifdef_count--;
 
-  return 0;
+  return n;
 }
 
